@@ -82,3 +82,76 @@ Definition entries_tls : list (string * entry_fn) := [
   ("parse_tls_handshake_msg_next_protocol", E parse_tls_handshake_msg_next_protocol sx_hs);
   ("parse_tls_handshake_msg_key_update", E parse_tls_handshake_msg_key_update sx_hs)
 ]%string.
+
+From TlsModel Require Export Extensions Kx Dtls.
+Definition E3d {A} (p : DTLSRecordHeader -> P A) (f : A -> sx) : entry_fn :=
+  fun a b => show_res f (run (p (mkDHdr (arg a 0) (arg a 1) (arg a 2) (arg a 3) (arg a 4))) (mkS 0 b)).
+Definition Eb {A} (p : bool -> P A) (f : A -> sx) : entry_fn :=
+  fun a b => show_res f (run (p (negb (arg a 0 =? 0))) (mkS 0 b)).
+
+Definition entries_ext : list (string * entry_fn) := [
+  ("parse_tls_extension", E parse_tls_extension sx_ext);
+  ("parse_tls_client_hello_extension", E parse_tls_client_hello_extension sx_ext);
+  ("parse_tls_server_hello_extension", E parse_tls_server_hello_extension sx_ext);
+  ("parse_tls_extensions", E parse_tls_extensions (slist sx_ext));
+  ("parse_tls_client_hello_extensions", E parse_tls_client_hello_extensions (slist sx_ext));
+  ("parse_tls_server_hello_extensions", E parse_tls_server_hello_extensions (slist sx_ext));
+  ("parse_tls_extension_unknown", E parse_tls_extension_unknown sx_ext);
+  ("parse_tls_extension_sni_hostname", E parse_tls_extension_sni_hostname sx_pair_ns);
+  ("parse_tls_extension_sni_content", E parse_tls_extension_sni_content sx_ext);
+  ("parse_tls_extension_max_fragment_length_content", E parse_tls_extension_max_fragment_length_content sx_ext);
+  ("parse_tls_extension_elliptic_curves_content", E parse_tls_extension_elliptic_curves_content sx_ext);
+  ("parse_tls_extension_ec_point_formats_content", E parse_tls_extension_ec_point_formats_content sx_ext);
+  ("parse_tls_extension_signature_algorithms_content", E parse_tls_extension_signature_algorithms_content sx_ext);
+  ("parse_tls_extension_heartbeat_content", E parse_tls_extension_heartbeat_content sx_ext);
+  ("parse_tls_extension_alpn_content", E parse_tls_extension_alpn_content sx_ext);
+  ("parse_tls_extension_signed_certificate_timestamp_content", E parse_tls_extension_signed_certificate_timestamp_content sx_ext);
+  ("parse_tls_extension_psk_key_exchange_modes_content", E parse_tls_extension_psk_key_exchange_modes_content sx_ext);
+  ("parse_tls_extension_renegotiation_info_content", E parse_tls_extension_renegotiation_info_content sx_ext);
+  ("parse_tls_extension_encrypted_server_name", E parse_tls_extension_encrypted_server_name sx_ext);
+  ("parse_tls_extension_sni", E parse_tls_extension_sni sx_ext);
+  ("parse_tls_extension_max_fragment_length", E parse_tls_extension_max_fragment_length sx_ext);
+  ("parse_tls_extension_status_request", E parse_tls_extension_status_request sx_ext);
+  ("parse_tls_extension_elliptic_curves", E parse_tls_extension_elliptic_curves sx_ext);
+  ("parse_tls_extension_ec_point_formats", E parse_tls_extension_ec_point_formats sx_ext);
+  ("parse_tls_extension_signature_algorithms", E parse_tls_extension_signature_algorithms sx_ext);
+  ("parse_tls_extension_heartbeat", E parse_tls_extension_heartbeat sx_ext);
+  ("parse_tls_extension_encrypt_then_mac", E parse_tls_extension_encrypt_then_mac sx_ext);
+  ("parse_tls_extension_extended_master_secret", E parse_tls_extension_extended_master_secret sx_ext);
+  ("parse_tls_extension_session_ticket", E parse_tls_extension_session_ticket sx_ext);
+  ("parse_tls_extension_key_share", E parse_tls_extension_key_share sx_ext);
+  ("parse_tls_extension_pre_shared_key", E parse_tls_extension_pre_shared_key sx_ext);
+  ("parse_tls_extension_early_data", E parse_tls_extension_early_data sx_ext);
+  ("parse_tls_extension_supported_versions", E parse_tls_extension_supported_versions sx_ext);
+  ("parse_tls_extension_cookie", E parse_tls_extension_cookie sx_ext);
+  ("parse_tls_extension_psk_key_exchange_modes", E parse_tls_extension_psk_key_exchange_modes sx_ext);
+  ("parse_named_groups", E parse_named_groups (slist SN))
+]%string.
+
+Definition entries_kx : list (string * entry_fn) := [
+  ("parse_dh_params", E parse_dh_params sx_dh);
+  ("parse_ec_parameters", E parse_ec_parameters sx_ecp);
+  ("parse_ecdh_params", E parse_ecdh_params sx_ecdh);
+  ("parse_digitally_signed_old", E parse_digitally_signed_old sx_ds);
+  ("parse_digitally_signed", E parse_digitally_signed sx_ds);
+  ("parse_content_and_signature_dh", Eb (parse_content_and_signature parse_dh_params)
+      (fun p => C "" [sx_dh (fst p); sx_ds (snd p)]));
+  ("parse_content_and_signature_ecdh", Eb (parse_content_and_signature parse_ecdh_params)
+      (fun p => C "" [sx_ecdh (fst p); sx_ds (snd p)]));
+  ("parse_ct_signed_certificate_timestamp", E parse_ct_signed_certificate_timestamp sx_sct);
+  ("parse_ct_signed_certificate_timestamp_list", E parse_ct_signed_certificate_timestamp_list (slist sx_sct));
+  ("ECPoint::parse", E parse_ec_point SS);
+  ("ECCurve::parse", E parse_ec_curve sx_pair_ss);
+  ("ExplicitPrimeContent::parse", E parse_explicit_prime (fun c => sx_ecc (EcExplicitPrime c)));
+  ("ECParametersContent::parse", E1 parse_ec_parameters_content sx_ecc)
+]%string.
+
+Definition entries_dtls : list (string * entry_fn) := [
+  ("parse_dtls_record_header", E parse_dtls_record_header sx_dhdr);
+  ("parse_dtls_message_handshake", E parse_dtls_message_handshake sx_dmsg);
+  ("parse_dtls_message_changecipherspec", E parse_dtls_message_changecipherspec sx_dmsg);
+  ("parse_dtls_message_alert", E parse_dtls_message_alert sx_dmsg);
+  ("parse_dtls_record_with_header", E3d parse_dtls_record_with_header (slist sx_dmsg));
+  ("parse_dtls_plaintext_record", E parse_dtls_plaintext_record sx_dplain);
+  ("parse_dtls_plaintext_records", E parse_dtls_plaintext_records (slist sx_dplain))
+]%string.
